@@ -167,6 +167,10 @@ func TestVerifPersist(t *testing.T) {
 	nstreams := vscale(6, 60)
 	for c := 0; c < nstreams; c++ {
 		size := int64(20 + r.intn(120))
+		shrunk := c%6 == 2 // a cache that held many entries, shrank to a hot set that was read often, and is saved then
+		if shrunk {
+			size = int64(1100 + r.intn(400))
+		}
 		wall0 := int64(1_700_000_000_000_000_000) + int64(r.next()%(1<<50))
 		vsetNow(wall0)
 		vsetRand(0)
@@ -189,6 +193,9 @@ func TestVerifPersist(t *testing.T) {
 		if c%5 == 0 {
 			nent = 0
 		}
+		if shrunk {
+			nent = 1000
+		}
 		for i := 0; i < nent; i++ {
 			var ttl time.Duration
 			if r.chance(40) {
@@ -205,6 +212,19 @@ func TestVerifPersist(t *testing.T) {
 			}
 		}
 		vdrainWrites(src)
+		if shrunk {
+			for i := 60; i < nent; i++ {
+				src.Delete(i)
+			}
+			vdrainWrites(src)
+			src.policyMu.Lock()
+			for rep := 0; rep < 16; rep++ {
+				for i := 0; i < 60; i++ {
+					src.policy.sketch.Add(src.hasher.Hash(i))
+				}
+			}
+			src.policyMu.Unlock()
+		}
 		var saved []vsaved
 		for _, lr := range []struct {
 			l  *List[int, int]
